@@ -516,3 +516,11 @@ def selfcheck():
     assert abs(model_amount(1.0, 0.03, 0.01, SEC_YEAR) - D("0.02")) < D("1e-12")
     assert abs(model_amount(-1.0, 0.03, 0.01, SEC_YEAR) + D("0.04")) < D("1e-12")
     assert model_amount(1.0, -0.05, 0.005, SEC_YEAR) == 0
+
+
+def _wrap_driver():
+    from tesim import gen_epi
+    return gen_epi.with_backtest_driver(generate_epi, 0.2)
+
+
+generate_epi = _wrap_driver()
